@@ -5,7 +5,7 @@
 #   4. the existing suite (without the demo) still passes with the patch.   Removes the worktree afterwards.
 set -u
 SEED="$1"; DEMO_SRC="$2"; DEMO_DST="$3"; shift 3; [ "$1" = "--" ] && shift
-ID=$(basename "$SEED")
+ID=$(basename "$(dirname "$SEED")")
 WT=/tmp/confirm/wt-$ID
 export CARGO_TARGET_DIR=/tmp/confirm/target CARGO_NET_OFFLINE=true
 mkdir -p /tmp/confirm
